@@ -388,9 +388,9 @@ func (g *tgen) scalarVals(k kind) []vtag {
 				t.param = durMin[r.Intn(len(durMin))]
 				// a bound in seconds beyond what a time.Duration holds
 				switch y := r.Intn(12); {
-				case y == 0:
+				case y < 2:
 					t.param = "-1e10" // every duration satisfies it
-				case y == 1 && g.nullable:
+				case y < 4 && g.nullable:
 					t.param = pick(r, "1e10", "inf") // no duration satisfies it
 				}
 			case kFloat:
@@ -409,9 +409,9 @@ func (g *tgen) scalarVals(k kind) []vtag {
 			case kDur:
 				t.param = durMax[r.Intn(len(durMax))]
 				switch y := r.Intn(12); {
-				case y == 0:
+				case y < 2:
 					t.param = pick(r, "1e10", "9223372036.854775807", "inf") // every duration satisfies it
-				case y == 1 && g.nullable:
+				case y < 4 && g.nullable:
 					t.param = "-1e10" // no duration satisfies it
 				}
 			case kFloat:
@@ -667,10 +667,20 @@ func (g *tgen) fieldOf(depth, x int) *tfield {
 		}
 	case x < 59: // interface{}, one in four behind a pointer (*interface{})
 		f.t = &tnode{k: kIface, rt: tIface}
-		if r.Intn(4) == 0 {
+		if r.Intn(3) == 0 {
 			f.t.prt = reflect.PtrTo(tIface)
 		}
-		switch r.Intn(3) {
+		content := r.Intn(3)
+		if f.t.prt != nil && r.Intn(2) == 0 {
+			// behind the pointer: half of the time a pointer to a library struct
+			// with a Validate of its own (cross-field condition)
+			s := fromLib([]reflect.Type{tRange, tPair, tURange}[r.Intn(3)])
+			f.t.elem = &tnode{k: kPtr, elem: s, rt: reflect.PtrTo(s.rt)}
+			f.vals = g.collVals(30, 0)
+			content = -1
+		}
+		switch content {
+		case -1:
 		case 0:
 			f.t.elem = scalarNode(kInt)
 			f.vals = g.collVals(30, 30)
